@@ -71,7 +71,12 @@ func c01Builtins() []c01Fn {
 var c01Shapes = []string{
 	`nil`, `true`, `""`, `"añb"`, `[]`, `[1, nil]`, `{}`, `{a: 1}`, `%{}`, `%{[1]: 2}`, `(1:3)`, `(nil:nil:nil)`, `{|x| x}`,
 	`<{|n| yield n if n < 2; recur(n + 1)}>.new(0)`, `1.try`, `1.try.{|q| q / 0}`, `1.try.{|q| q / 0}.err`, `1.5`, `Int`, `Obj`, `BaseObj`, `Int.bear`, `[1].bear`, `"s".bear`, `'sym`, `?c`,
+	`[["k", 1]]`, `[["s".bear({}), 1]]`, `[[Str, 1]]`, `[[1, 2], [3]]`, `{a: {b: [1]}}`,
 }
+
+// generic consumers of a built-in's result: printing, comparison, unpacking into calls and
+// literals, iteration, interpolation
+var c01Consumers = []string{"r.S", "r.repr", "r == r", "[*r]", "{**r}", "%{**r}", "{|x| \\_}(**r)", "{|x| \\0}(*r)", "r@{|x| x}", "r.keys", "\"#{r}\"", "r.B", "r.A", "r.try.A"}
 
 // c01Arg: a value for one argument position: a symbolic int, a symbolic float, or one of
 // the concrete shapes (solver choice).
@@ -116,6 +121,16 @@ func H_C01_builtin() {
 	rt.Assert(pm == "", "a built-in must not abort the interpreter, whatever arguments reach it")
 	if pm == "" {
 		rt.Assert(res != nil, "a built-in returns a value or a Pangaea error")
+	}
+	// second step: whatever value a built-in returned must survive the generic consumers
+	if _, isErr := res.(*object.PanErr); pm == "" && res != nil && !isErr && arity <= 1 && rt.Param(3) == 1 {
+		h.Set("r", res)
+		for _, c := range c01Consumers {
+			var out object.PanObject
+			pm2 := rt.Panics(func() { out = h.Eval(c) })
+			rt.Assert(pm2 == "", "a value returned by a built-in must not abort the interpreter when it is printed, compared, unpacked or iterated")
+			_ = out
+		}
 	}
 }
 
